@@ -53,7 +53,9 @@ def handle (line : String) : String :=
     | some b, some n, some i =>
       if n ≥ 256 then "bad-hex" else
       if !(validIri b && validIri i) then "skip=1" else
-      let same := if sameDoc b i then [kv "o.some" "1"] else []
+      -- `gen_same`: the `Relativizer<String>` instantiation, a clone and `base()` agree with `Relativizer<&str>`
+      -- (one function in the model); a plain field: a difference is a model/implementation disagreement
+      let same := (if sameDoc b i then [kv "o.some" "1"] else []) ++ [kv "gen_same" "1"]
       match relativize (Relativize.new b n) i with
       | .panic => reply ([kv "rel" "panic", kv "pk" "boundary", kv "o.nopanic" "1"] ++ same)
       | .none => reply ([kv "rel" "none", kv "o.nopanic" "1"] ++ same)
@@ -67,7 +69,7 @@ def handle (line : String) : String :=
         else
         let res := Rfc3986.resolve b r
         reply ([kv "rel" (hexOfOctets r), kv "o.nopanic" "1"] ++ same ++
-               [kv "o.res" (hexOfOctets res), kv "o.resolves" "1", kv "o.isref" "1", kv "o.parents_ok" "1",
+               [kv "res_same" "1", kv "o.res" (hexOfOctets res), kv "o.resolves" "1", kv "o.isref" "1", kv "o.parents_ok" "1",
                 kvB "m.rfc_resolves" (res == i), kvB "m.clean" (cleanCase b n i), kvB "m.plainref" (isPlainRef r),
                 kvN "m.dotdot" (countDotDot r), kv "m.ins" (insName ins), kv "m.tail" (hexOfOctets t)])
     | _, _, _ => "bad-hex"
